@@ -20,6 +20,11 @@ def blocks_all(rng, tier):
                     # rejected registrations: forbidden and OS-rejected numbers
                     for bad in (9, 11, 100, -1):
                         blocks.append(["mk %s %d %d" % (k, nb, full), "reg %s %d" % (how, bad), "final"])
+    # a descriptor that is no socket and refuses F_SETFL (O_PATH): the registration is rejected by the
+    # error of `set_flags` and the descriptor handed over must still be closed exactly once
+    for how in ("raw", "own"):
+        blocks.append(["mk opath 0 0", "reg %s 10" % how, "final"])
+        blocks.append(["mk opath 0 0", "reg %s 10" % how, "raise 2", "unreg", "final"])
     return blocks
 
 
